@@ -421,6 +421,9 @@ class BuiltinCalls:
                 inner = subst_val(inner, d[1]) if d[1] else inner
                 k = sq.length
                 I.axiom("zip(*[iter(L)] * k) yields consecutive k-chunks of L")
+                r = self.chunk_pairs(inner, k, node, state, longest)
+                if r is not None:
+                    return r
                 chunk = Seq(Length(k.term, k.lo, k.hi), subst_val(inner.elem, {inner.kvar: STAR}), "c", None, None, frozenset({"chunk"}), "tuple")
                 n_lo = 0 if k.hi in (0, INF) else int(inner.length.lo // max(k.hi, 1))
                 n_hi = INF if k.lo == 0 or inner.length.hi == INF else math.ceil(inner.length.hi / max(k.lo, 1))
@@ -451,6 +454,45 @@ class BuiltinCalls:
             return Seq(Length.const(0), Top("empty"), "k", (), None, frozenset(), "iter")
         I.note_undecided("zip(*rows) with rows of unknown width", node)
         return Top("zip*")
+
+    def chunk_pairs(self, inner: Seq, k: Length, node, state: State, longest: bool):
+        """permutations(S, 2) cut into consecutive chunks of len(S) - 1: chunk j holds exactly the pairs whose first
+        component is S[j] (documented order of itertools.permutations). Returns None when the shape does not match."""
+        from ..poly import p_add, p_atom, p_const, to_poly
+        from .values import map_val_indices
+
+        I = self.I
+        lt = inner.length.term
+        if lt is None or lt[0] != "pairs" or inner.flags & {"cond-append", "multi-append", "reordered", "building", "partial", "weak-append", "tail-append"}:
+            return None
+        base_term = lt[1]
+        base = I.pairs_base.get(base_term)
+        if base is None or k.term is None or k.term[0] != "num":
+            return None
+        want = p_add(p_atom(("lenterm", base_term)), p_const(1), -1)
+        got = to_poly(k.term[1])
+        if got != want:
+            I.event("chunk-mismatch", node, k=k.term, base=base_term)
+            return None
+        kv = inner.kvar
+        okv = f"kc{I.site_id('chunk', node)}"
+        ikv = f"kd{I.site_id('chunk', node)}"
+
+        def fn(t):
+            if t == ("pa", ivar(kv)):
+                return ivar(okv)
+            if t == ("pb", ivar(kv)):
+                return ("oth", ivar(ikv))
+            if t == ivar(kv):
+                return STAR
+            return None
+
+        elem = map_val_indices(inner.elem, fn)
+        chunk = Seq(Length(("add", base_term, -1), max(base.lo - 1, 0), base.hi - 1), elem, ikv, None, None, frozenset({"chunk", "row-of-pairs"}), "tuple")
+        res = Seq(base, chunk, okv, None, None, frozenset({"rows-of-pairs"}), "iter")
+        I.axiom("chunk j of permutations(S, 2) cut into chunks of len(S) - 1 = the pairs (S[j], S[b]), b != j")
+        I.event("chunking", node, inner=inner, k=k, result=res, longest=longest, aligned=True)
+        return res
 
     def b_map(self, args, kwargs, node, state):
         I = self.I
@@ -548,9 +590,12 @@ class BuiltinCalls:
         kinds = en.kinds if en.kinds else frozenset()
         if kinds == frozenset({"bool"}):
             kinds = INT
-        esym = subst_val(s.elem, {s.kvar: ivar("$fold")})
+        fv = f"$f{I.site_id('fold', node)}"
+        esym = subst_val(s.elem, {s.kvar: ivar(fv)})
         esym = esym.sym if isinstance(esym, Num) else None
-        sym = mk_sym("fold", ("const", "+"), esym, ("lenterm", s.length.term)) if s.length.term is not None and esym is not None else None
+        full = not (s.flags & {"partial", "reordered", "building", "weak-append", "cond-append", "multi-append", "unmodelled"})
+        sym = mk_sym("fold", ("const", "+"), ("const", fv), esym, ("lenterm", s.length.term)) if s.length.term is not None and esym is not None and full else None
+        I.event("fold", node, how="sum", seq=s, elem=en, sym=sym, full=full)
         return Num(kinds=kinds, rng=rng, deg=deg, prov=en.prov | sn.prov, sym=sym)
 
     def b_abs(self, args, kwargs, node, state):
@@ -707,10 +752,13 @@ class BuiltinCalls:
         if reverse is not None:
             t = I.truth(state, reverse)
             rev = True if t is True else (None if t is None else False)
-        tok = f"s{I._loopid + 1000}"
-        I._loopid += 1
+        sid = I.site_id("sort", node)
+        tok = f"s{sid}"
         e_t = subst_val(s.elem, {s.kvar: ivar(tok)})
         keyval = e_t
+        if (key is None or isinstance(key, NoneV)) and isinstance(e_t, TupleV) and e_t.items and isinstance(e_t.items[0], Num):
+            # tuples compare lexicographically: the first component decides (completely so when it is a permutation of positions)
+            keyval = e_t.items[0]
         if key is not None and not isinstance(key, NoneV):
             st = state.copy()
             keyval = I.call_value(key, [e_t], {}, node, st)
@@ -719,8 +767,7 @@ class BuiltinCalls:
                 return s
             # the key function runs once per element; effects (none expected) are joined in
             state.assign_from(I.join(state, st))
-        I._permid += 1
-        pid = f"p{I._permid}"
+        pid = f"p{sid}"
         info = {"node": node, "func": I.cur_func(), "key_given": key is not None and not isinstance(key, NoneV), "reverse": rev,
                 "keyval": keyval, "src": s, "length": s.length, "inverse_of": None, "tok": tok}
         inner = None
